@@ -1000,10 +1000,12 @@ func genBase(t *rapid.T, k int) string {
 			fmt.Fprintf(&sb, "a%d(%d)%s.\n", k, num(t), constAnn(t, tm))
 		}
 	}
-	if chance(t, "hasPairs", 35) { // plain key-value facts that an interactive definition may later put under a merge predicate
-		gi := rng(t, "pairPred", 0, 2)
-		for i, n := 0, rng(t, "nFilePairs", 1, 3); i < n; i++ {
-			fmt.Fprintf(&sb, "g%d(%s, %d).\n", gi, pick(t, "filePairKey", "/a", "/b", "/c"), rng(t, "filePairVal", 2, 9))
+	if chance(t, "hasPairs", 50) { // plain key-value facts that an interactive definition may later put under a merge predicate
+		// file k owns the key /k<k>: one fact per predicate and key over all files
+		for gi := 0; gi < 3; gi++ {
+			if chance(t, "filePair", 75) {
+				fmt.Fprintf(&sb, "g%d(/k%d, %d).\n", gi, k%6, pick(t, "filePairVal", 2, 5, 7, 9))
+			}
 		}
 	}
 	if chance(t, "hasO", 30) { // annotated head over a body without time
@@ -1279,13 +1281,18 @@ func genDefine(t *rapid.T, j int, kind string, ses *session) (Cmd, []nmInput) {
 		text = facts + fmt.Sprintf("f%d(X) :- %s(X), !%s(X).", i, pos, neg)
 		inputs = []nmInput{{pred: neg, vals: vals}}
 	case dPairs:
-		for k, n := 0, rng(t, "npairs", 1, 3); k < n; k++ {
-			text += fmt.Sprintf("g%d(%s, %d).\n", i, pick(t, "pairKey", "/a", "/b", "/c"), rng(t, "pairVal", 2, 9))
-		}
+		// one fact per predicate and key, always the same one: a second fact for a key of a predicate that is later
+		// declared with a functional dependency makes the merged result depend on the enumeration order of the
+		// layers (facts of lower layers cannot be removed) - that is not what C16 is about
+		text = fmt.Sprintf("g%d(/d%d, %d).\n", i, i, 5+i)
 	case dLattice:
 		text = fmt.Sprintf("\nDecl g%[1]d(K, V) descr [fundep([K], [V]), merge([V], \"lower%[1]d\")].\nDecl lower%[1]d(A, B, C) descr [mode('+', '+', '-'), deferred()].\n", i)
-		for k, n := 0, rng(t, "noffers", 1, 3); k < n; k++ {
-			text += fmt.Sprintf("offer%d(%s, %d).\n", i, pick(t, "offerKey", "/a", "/b", "/c"), rng(t, "offerVal", 0, 9))
+		// at most one offer per key, always with the value 3 (two different offers for a key that also has an
+		// irremovable fact in a lower layer are merged in enumeration order)
+		keys := []string{"/k0", "/k1", "/k2", "/k3", "/k4", "/k5", fmt.Sprintf("/d%d", i)}
+		first := rng(t, "offerFirst", 0, len(keys)-1)
+		for k, n := 0, rng(t, "noffers", 2, 7); k < n; k++ {
+			text += fmt.Sprintf("offer%d(%s, 3).\n", i, keys[(first+k)%len(keys)])
 		}
 		text += fmt.Sprintf("g%[1]d(K, V) :- offer%[1]d(K, V).\nlower%[1]d(A, B, C) :- A < B, C = A.\nlower%[1]d(A, B, C) :- B <= A, C = B.\n", i)
 		if chance(t, "latticeThenFail", 30) { // rejected at evaluation, in a stratum above the merged predicate
